@@ -21,7 +21,7 @@ RULE = (
     "first, then the intended one - so the verdict must follow the rule registered last. combo: combo_check over lists of 1-3 x 1-2 positional values and 1-3 x "
     "1-2 keyword values of a two-argument primitive whose VJP or JVP rule is wrong (factor 1.1 or sign) for exactly one drawn combination "
     "(or none), 20 trials, same binomial decision: every listed combination must actually be checked."
-    ' Families skew (antisymmetric linear map), reduce (reductions with unreduced tangents), masked (structural zeros in the derivative; a rule that forgets the mask) and leaves4 (a four-leaf tuple argument or result whose last leaf comes back with shape (1, n)); Python-int points (refusal allowed, acceptance of a wrong rule is not).'
+    ' argnum: check_grads(f, argnum) with positive, negative and tuple positions on a three-argument primitive with one wrong rule. Families skew (antisymmetric linear map), reduce (reductions with unreduced tangents), masked (structural zeros in the derivative; a rule that forgets the mask) and leaves4 (a four-leaf tuple argument or result whose last leaf comes back with shape (1, n)); Python-int points (refusal allowed, acceptance of a wrong rule is not).'
 )
 
 FAMILIES = ["elementwise", "matmul", "broadcast", "complex", "container", "scalar", "dict_complex", "skew", "reduce", "masked", "leaves4"]
@@ -474,6 +474,69 @@ def cell_body(trials, c):
     return ok(nontrivial=True, key=cell, labels=labels + (["some_misses"] if misses else []), sample=sample)
 
 
+def argnum_body(trials, c):
+    """check_grads(f, argnum)(a, b, c): the checker examines the argument(s) the caller names - by a positive or NEGATIVE position, or a tuple of
+    positions.  A three-argument primitive p(a, b, c) = sin(a) * b + c * c whose rule for ONE argument (drawn) is wrong by a factor or a sign: a
+    check that names that argument must reject it (same binomial decision as cells); a check that does not name it, or a correct primitive, must pass."""
+    import autograd.numpy as anp
+    from autograd.extend import defjvp, defvjp, primitive
+    from autograd.test_util import check_grads
+
+    vseed, base = c.seed(), c.seed()
+    bad = c.int(0, 2)
+    defect = c.choice(["factor", "sign", "none"])
+    where = c.choice(["vjp", "jvp"])
+    form = c.choice(["pos", "neg", "tuple_pos", "tuple_neg", "tuple_all", "tuple_mixed", "default"])
+    order = c.int(1, 2)
+    sh = c.choice([(), (3,)])
+    (a0, b0, c0), _ = values.generic(vseed, [sh, sh, sh], 0.4, 1.2)
+    if sh == ():
+        a0, b0, c0 = float(a0), float(b0), float(c0)
+    argnum = {"pos": bad, "neg": bad - 3, "tuple_pos": (bad,), "tuple_neg": (bad - 3,), "tuple_all": (0, 1, 2), "tuple_mixed": ((bad + 1) % 3, bad - 3), "default": None}[form]
+    named = (form != "default") or bad == 0  # the default examines argument 0
+    k = {"factor": 1.1, "sign": -1.0, "none": 1.0}[defect]
+    kv = [k if (i == bad and where == "vjp") else 1.0 for i in range(3)]
+    kj = [k if (i == bad and where == "jvp") else 1.0 for i in range(3)]
+
+    @primitive
+    def p(a, b, cc):
+        return onp.sin(a) * b + cc * cc
+
+    defvjp(p, lambda ans, a, b, cc: lambda g: kv[0] * g * anp.cos(a) * b, lambda ans, a, b, cc: lambda g: kv[1] * g * anp.sin(a), lambda ans, a, b, cc: lambda g: kv[2] * g * 2 * cc)
+    defjvp(p, lambda g, ans, a, b, cc: kj[0] * g * anp.cos(a) * b, lambda g, ans, a, b, cc: kj[1] * g * anp.sin(a), lambda g, ans, a, b, cc: kj[2] * g * 2 * cc)
+    sample = {"bad_arg": bad, "defect": defect, "where": where, "form": form, "argnum": repr(argnum), "order": order, "shape": list(sh), "trials": trials, "vseed": vseed, "seed_base": base}
+    c.features.update({k_: v_ for k_, v_ in sample.items() if k_ not in ("vseed", "seed_base")})
+    state = onp.random.get_state()
+    rejected, first_err, other = 0, None, None
+    try:
+        for i in range(trials):
+            onp.random.seed((base * 7919 + i * 104729 + 777) % (2 ** 32))
+            try:
+                (check_grads(p, order=order) if argnum is None else check_grads(p, argnum, order=order))(a0, b0, c0)
+            except AssertionError as e:
+                rejected += 1
+                first_err = first_err or str(e)[:160]
+            except Exception as e:
+                if not from_autograd(e):
+                    raise
+                rejected += 1
+                other = other or describe_exc(e)
+    finally:
+        onp.random.set_state(state)
+    cell = json.dumps([bad, defect, where, form, order, list(sh)])
+    labels = ["argnum", "form=" + form, "defect=" + defect]
+    if defect == "none" or not named:
+        if rejected:
+            return fail("false_rejection", f"check_grads(p, {argnum!r}) rejected although the rules of the examined argument(s) are right, in {rejected}/{trials} trials: {first_err or other}",
+                        f"C18|argnum|false_rejection|{form}", sample=sample)
+        return ok(nontrivial=form != "default", key=cell, labels=labels, sample=sample)
+    misses = trials - rejected
+    tail = binom_tail(trials, misses) if misses else 1.0
+    if misses and tail < 1e-6:
+        return fail("missed_defect", f"check_grads(p, {argnum!r}) accepted a wrong {where} rule of argument {bad} in {misses}/{trials} trials", f"C18|argnum|missed|{form}|{where}", sample=sample)
+    return ok(nontrivial=True, key=cell, labels=labels, sample=sample)
+
+
 def combo_body(trials, c):
     """combo_check: every combination of the listed positional values and keyword values is checked.  A two-argument primitive with two
     keyword options carries a wrong rule (factor 1.1 / sign / transpose-like swap) for exactly one drawn combination - or for none."""
@@ -566,6 +629,7 @@ PROP = Prop("C18", [
     Test("cells", partial(cell_body, 100), quick=960, thorough=0, shard_size=30),
     Test("cells_300", partial(cell_body, 300), quick=0, thorough=2000, shard_size=60),
     Test("combo", partial(combo_body, 20), quick=320, thorough=3000, shard_size=20),
+    Test("argnum", partial(argnum_body, 30), quick=480, thorough=3000, shard_size=30),
 ], RULE, level="exploration", assumptions=[
     "statistical decision rule: one-sided exact binomial test at alpha = 1e-6 per cell against the stated 0.99 rejection probability; "
     "a checker whose power lies between ~0.93 and 0.99 can go undetected",
